@@ -391,20 +391,37 @@ impl Ctx {
                     r1.iter().map(|x| (x.sig.clone(), x.what.clone())).collect();
                 let d2: Vec<(String, String)> =
                     r2.iter().map(|x| (x.sig.clone(), x.what.clone())).collect();
+                let mut nondet: Option<String> = None;
                 if d1 != d2 || !r1.iter().any(|x| x.sig == v.sig) {
-                    println!(
-                        "MACHINERY-ERROR replay of case with sig={} did not reproduce identically (first: {:?}; second: {:?}; original: {})",
-                        v.sig, d1.first(), d2.first(), v.what
-                    );
-                    self.write_evidence(total_new, total_known, &sig_summary);
-                    std::process::exit(2);
+                    // The subject itself may be non-deterministic (a result that depends on the
+                    // iteration order of a freshly keyed hash map, say): that is a failure of the
+                    // subject, not of the harness, provided the same assertion keeps failing. The
+                    // signature must reappear in at least 3 of up to 10 replays; otherwise the
+                    // report is not trusted.
+                    let mut hits = [&r1, &r2].iter().filter(|r| r.iter().any(|x| x.sig == v.sig)).count();
+                    let mut tries = 2;
+                    while hits < 3 && tries < 10 {
+                        tries += 1;
+                        if run_case(&v.case).iter().any(|x| x.sig == v.sig) {
+                            hits += 1;
+                        }
+                    }
+                    if hits < 3 {
+                        println!(
+                            "MACHINERY-ERROR replay of case with sig={} did not reproduce (signature seen in {} of {} replays; first: {:?}; second: {:?}; original: {})",
+                            v.sig, hits, tries, d1.first(), d2.first(), v.what
+                        );
+                        self.write_evidence(total_new, total_known, &sig_summary);
+                        std::process::exit(2);
+                    }
+                    nondet = Some(format!("the subject is not deterministic on this case: the same assertion failed in {} of {} replays with varying detail", hits, tries));
                 }
                 n_file += 1;
                 let path = replay_dir.join(format!("{}-{}.json", self.prop, n_file));
                 let _ = std::fs::write(
                     &path,
                     serde_json::to_string_pretty(&json!({"property": self.prop, "sig": v.sig,
-                        "what": v.what, "case": v.case}))
+                        "what": v.what, "case": v.case, "nondeterministic_subject": nondet}))
                     .unwrap(),
                 );
                 new_lines.push(format!(
